@@ -288,6 +288,65 @@ func monC16(c *drv.Ctx) {
 			cs.C.Obs("structs attacked", 1)
 		})
 	}
+	// (3b) the allocator switch is flipped between two decodes (never concurrently): values obtained
+	// under either setting must stay intact and independent afterwards
+	c.Stage("toggle-between-decodes", c.Pick(300, 3000), false, func(cs *drv.Case) {
+		r := cs.R
+		var rs []retained
+		var ins [][]byte
+		on := r.Intn(2) == 0
+		for round := 0; round < 6; round++ {
+			thrift.SetSpanCache(on)
+			on = !on
+			n := 5 + r.Intn(40)
+			var wire []byte
+			var vals [][]byte
+			for k := 0; k < n; k++ {
+				v := gen.Bytes(r, []int{0, 1, 60, 127, 128, 129, 1000, 5000}[r.Intn(8)])
+				vals = append(vals, v)
+				wire = ref.EncBinary(wire, v)
+			}
+			in := append([]byte(nil), wire...)
+			ins = append(ins, in)
+			off := 0
+			for k := range vals {
+				if k%2 == 0 {
+					b, l, err := thrift.Binary.ReadBinary(in[off:])
+					if err != nil || !bytes.Equal(b, vals[k]) {
+						cs.Fail("decode-wrong", M{"api": "Binary.ReadBinary", "stage": "toggle"}, M{"err": errString(err)})
+						return
+					}
+					rs = append(rs, retained{b: b, snap: append([]byte(nil), b...), what: "Binary.ReadBinary result (toggle)"})
+					off += l
+				} else {
+					str, l, err := thrift.Binary.ReadString(in[off:])
+					if err != nil || str != string(vals[k]) {
+						cs.Fail("decode-wrong", M{"api": "Binary.ReadString", "stage": "toggle"}, M{"err": errString(err)})
+						return
+					}
+					rs = append(rs, retained{s: str, snap: []byte(str), what: "Binary.ReadString result (toggle)"})
+					off += l
+				}
+			}
+			if !checkRetained(cs, rs, "after the allocator switch was flipped and more values were decoded") {
+				return
+			}
+		}
+		for i := range rs {
+			if rs[i].b != nil {
+				_ = append(rs[i].b, 1, 2, 3)
+			}
+		}
+		for _, in := range ins {
+			for k := range in {
+				in[k] = 0xFF
+			}
+		}
+		checkRetained(cs, rs, "after appends and after all inputs were overwritten")
+		cs.Count(true, "toggle", cs.Idx)
+		cs.C.Obs("toggle cases", 1)
+	})
+
 	// (4) stream reader: release, recycle, pool reuse, second message through a recycled reader
 	for _, span := range []bool{false, true} {
 		span := span
